@@ -416,6 +416,40 @@ Section CrackNdProofs.
     intros [|i [|j [|k l]]] H; cbn [List.length] in H; try lia; cbn [pad2 row0]; eauto.
   Qed.
 
+  (* the (final, broadcast) shape has two axes and the first is empty: the only shapes for which the
+     2-d arrays that crack_2d_scat computes on (after atleast_2d and broadcast_arrays) have no row —
+     a scalar becomes (1, 1) and a vector of any length, also 0, becomes (1, n) *)
+  Definition empty_first_axis (fs : list nat) : bool :=
+    match fs with [a; _] => (a =? 0)%nat | _ => false end.
+
+  Lemma empty_first_axis_spec : forall fs, empty_first_axis fs = true <-> exists b, fs = [0%nat; b].
+  Proof.
+    intros fs. split.
+    - destruct fs as [|a [|b [|c l]]]; cbn [empty_first_axis]; try discriminate.
+      intros H. apply Nat.eqb_eq in H. subst a. eauto.
+    - intros [b ->]. reflexivity.
+  Qed.
+
+  Lemma comp_first_axis : forall (inc out : nd T) fs cs,
+    bshape (nd_shape inc) (nd_shape out) = Some fs -> (List.length fs <= 2)%nat ->
+    bshape (nd_shape (atleast_2d inc)) (nd_shape (atleast_2d out)) = Some cs ->
+    (hd 1 cs =? 0)%nat = empty_first_axis fs.
+  Proof.
+    intros [si fi] [so fo] fs cs Hb Hl Hc. cbn [nd_shape] in Hb.
+    pose proof (bshape_length _ _ _ Hb) as Hlen.
+    destruct si as [|a [|b [|c si]]]; destruct so as [|p [|q [|t so]]];
+      cbn [List.length] in Hlen; try lia.
+    all: unfold bshape in Hb; cbn [rev app bshape_rev] in Hb.
+    all: unfold atleast_2d in Hc; cbn [nd_shape nd_at] in Hc.
+    all: unfold bshape in Hc; cbn [rev app bshape_rev] in Hc.
+    all: repeat match type of Hb with context [Nat.eqb ?x ?y] => destruct (Nat.eqb_spec x y) end;
+      try discriminate; injection Hb as <-.
+    all: repeat match type of Hc with context [Nat.eqb ?x ?y] => destruct (Nat.eqb_spec x y) end;
+      try discriminate; try lia; injection Hc as <-.
+    all: cbn [rev app hd empty_first_axis]; try reflexivity.
+    all: repeat match goal with |- context [Nat.eqb ?x ?y] => destruct (Nat.eqb_spec x y) end; try reflexivity; try lia.
+  Qed.
+
   Definition crack_use (k : string) (tc : list string) : bool :=
     pick k (use_incident_L tc) (use_incident_L tc) (use_incident_T tc) (use_incident_T tc).
   Definition kern_pick (K : crack_kernels) (k : string) : T -> T -> @cx T :=
@@ -441,6 +475,7 @@ Section CrackNdProofs.
     destruct (bshape (nd_shape inc) (nd_shape out)) as [fs|] eqn:Eb; [|discriminate].
     destruct (Nat.ltb_spec 2 (List.length fs)) as [Hl|Hl]; [discriminate|].
     destruct (bshape (nd_shape (atleast_2d inc)) (nd_shape (atleast_2d out))) as [cs|] eqn:Ec; [|discriminate].
+    destruct (safe && (hd 1 cs =? 0)%nat) eqn:Es; [discriminate|].
     intros HD. injection HD as <-. exists fs. repeat split; try assumption; try reflexivity.
     intros k Hk.
     assert (Hent : forall (use : bool) (kern : T -> T -> @cx T) idx, in_shape idx fs ->
@@ -486,16 +521,35 @@ Section CrackNdProofs.
     - destruct idx as [|j [|i [|x l]]]; cbn [row0]; try reflexivity. apply Hcol. exact Hin.
   Qed.
 
-  (* the errors of crack_2d_scat and their precedence *)
+  (* the optimised driver answers only when the computed 2-d arrays have a row *)
+  Lemma crack_nd_rows : forall K (inc out : nd T) tc D fs,
+    crack_2d_scat_nd N K inc out true tc = inr D ->
+    bshape (nd_shape inc) (nd_shape out) = Some fs -> empty_first_axis fs = false.
+  Proof.
+    intros K inc out tc D fs. unfold crack_2d_scat_nd.
+    destruct (valid_to_compute tc); cbn [negb]; [|discriminate].
+    destruct (bshape (nd_shape inc) (nd_shape out)) as [fs'|] eqn:Eb; [|discriminate].
+    destruct (Nat.ltb_spec 2 (List.length fs')) as [Hl|Hl]; [discriminate|].
+    destruct (bshape (nd_shape (atleast_2d inc)) (nd_shape (atleast_2d out))) as [cs|] eqn:Ec; [|discriminate].
+    cbn [andb]. destruct (hd 1 cs =? 0)%nat eqn:Es; [discriminate|].
+    intros _ Hfs. injection Hfs as <-. rewrite <- (comp_first_axis inc out fs' cs Eb Hl Ec). exact Es.
+  Qed.
+
+  (* the errors of crack_2d_scat and their precedence: ValueError (to_compute), ValueError (shapes),
+     NotImplementedError (> 2 dimensions), then — optimised driver only — the IndexError of
+     inc_theta[0] when the broadcast shape is (0, b) *)
   Lemma crack_nd_outcome : forall K (inc out : nd T) safe tc,
     match crack_2d_scat_nd N K inc out safe tc with
     | inl EToCompute => valid_to_compute tc = false
     | inl EBroadcast => valid_to_compute tc = true /\ bshape (nd_shape inc) (nd_shape out) = None
     | inl ENotImplemented => valid_to_compute tc = true /\
         exists fs, bshape (nd_shape inc) (nd_shape out) = Some fs /\ (2 < List.length fs)%nat
+    | inl EEmptyModes => valid_to_compute tc = true /\ safe = true /\
+        exists b, bshape (nd_shape inc) (nd_shape out) = Some [0%nat; b]
     | inl _ => False
     | inr _ => valid_to_compute tc = true /\
-        exists fs, bshape (nd_shape inc) (nd_shape out) = Some fs /\ (List.length fs <= 2)%nat
+        exists fs, bshape (nd_shape inc) (nd_shape out) = Some fs /\ (List.length fs <= 2)%nat /\
+                   (safe = true -> forall b, fs <> [0%nat; b])
     end.
   Proof.
     intros K inc out safe tc.
@@ -504,17 +558,47 @@ Section CrackNdProofs.
       destruct (valid_to_compute tc); cbn [negb] in E; [|injection E as <-; reflexivity].
       destruct (bshape (nd_shape inc) (nd_shape out)) as [fs|] eqn:Eb; [|injection E as <-; split; reflexivity].
       destruct (Nat.ltb_spec 2 (List.length fs)) as [Hl|Hl]; [injection E as <-; split; [reflexivity|eauto]|].
-      exfalso.
-      destruct (bshape (nd_shape (atleast_2d inc)) (nd_shape (atleast_2d out))) as [cs|] eqn:Ec; [discriminate|].
-      (* the second broadcast (after atleast_2d) cannot fail *)
-      destruct inc as [si fi], out as [so fo]. cbn [nd_shape] in Eb.
-      pose proof (bshape_length _ _ _ Eb) as Hlen.
-      destruct si as [|a [|b [|c si]]]; destruct so as [|p [|q [|t so]]]; cbn [List.length] in Hlen; try lia.
-      all: unfold bshape in Eb; cbn [rev app bshape_rev] in Eb.
-      all: unfold atleast_2d, bshape in Ec; cbn [nd_shape rev app bshape_rev] in Ec.
-      all: repeat match type of Eb with context [Nat.eqb ?x ?y] => destruct (Nat.eqb_spec x y) end; try discriminate.
-      all: repeat match type of Ec with context [Nat.eqb ?x ?y] => destruct (Nat.eqb_spec x y) end; try discriminate; try lia.
-    - destruct (crack_nd_entry K inc out safe tc D E) as (fs & Hb & Hl & Hv & _). split; [exact Hv|eauto].
+      destruct (bshape (nd_shape (atleast_2d inc)) (nd_shape (atleast_2d out))) as [cs|] eqn:Ec.
+      + destruct (safe && (hd 1 cs =? 0)%nat) eqn:Es; [|discriminate]. injection E as <-.
+        apply andb_prop in Es. destruct Es as [Hs Hz].
+        rewrite (comp_first_axis inc out fs cs Eb Hl Ec) in Hz.
+        apply empty_first_axis_spec in Hz. destruct Hz as [b ->].
+        split; [reflexivity|]. split; [exact Hs|]. exists b. reflexivity.
+      + exfalso.
+        (* the second broadcast (after atleast_2d) cannot fail *)
+        destruct inc as [si fi], out as [so fo]. cbn [nd_shape] in Eb.
+        pose proof (bshape_length _ _ _ Eb) as Hlen.
+        destruct si as [|a [|b [|c si]]]; destruct so as [|p [|q [|t so]]]; cbn [List.length] in Hlen; try lia.
+        all: unfold bshape in Eb; cbn [rev app bshape_rev] in Eb.
+        all: unfold atleast_2d, bshape in Ec; cbn [nd_shape rev app bshape_rev] in Ec.
+        all: repeat match type of Eb with context [Nat.eqb ?x ?y] => destruct (Nat.eqb_spec x y) end; try discriminate.
+        all: repeat match type of Ec with context [Nat.eqb ?x ?y] => destruct (Nat.eqb_spec x y) end; try discriminate; try lia.
+    - destruct (crack_nd_entry K inc out safe tc D E) as (fs & Hb & Hl & Hv & _). split; [exact Hv|].
+      exists fs. split; [exact Hb|]. split; [exact Hl|].
+      intros Hs b Hfs. subst safe fs. pose proof (crack_nd_rows K inc out tc D _ E Hb) as Hr. discriminate Hr.
+  Qed.
+
+  (* the missing rows decide: with valid keys and a broadcast shape (0, b) the optimised driver raises
+     IndexError, the general driver returns the four empty arrays *)
+  Lemma crack_nd_empty_rows : forall K (inc out : nd T) tc b,
+    valid_to_compute tc = true -> bshape (nd_shape inc) (nd_shape out) = Some [0%nat; b] ->
+    crack_2d_scat_nd N K inc out true tc = inl EEmptyModes /\
+    exists D, crack_2d_scat_nd N K inc out false tc = inr D.
+  Proof.
+    intros K inc out tc b Hv Hb. split.
+    - pose proof (crack_nd_outcome K inc out true tc) as Ho.
+      destruct (crack_2d_scat_nd N K inc out true tc) as [[]|D]; try contradiction; try reflexivity.
+      + destruct Ho as [_ Ho]. congruence.
+      + congruence.
+      + destruct Ho as (_ & fs & Hfs & Hl). rewrite Hb in Hfs. injection Hfs as <-. cbn [List.length] in Hl. lia.
+      + destruct Ho as (_ & fs & Hfs & _ & Hne). rewrite Hb in Hfs. injection Hfs as <-.
+        exfalso. exact (Hne eq_refl b eq_refl).
+    - pose proof (crack_nd_outcome K inc out false tc) as Ho.
+      destruct (crack_2d_scat_nd N K inc out false tc) as [[]|D]; try contradiction; eauto.
+      + destruct Ho as [_ Ho]. congruence.
+      + congruence.
+      + destruct Ho as (_ & Hs & _). discriminate Hs.
+      + destruct Ho as (_ & fs & Hfs & Hl). rewrite Hb in Hfs. injection Hfs as <-. cbn [List.length] in Hl. lia.
   Qed.
 End CrackNdProofs.
 
@@ -739,6 +823,7 @@ Section Objects.
     destruct (bshape (nd_shape inc) (nd_shape out)) as [fs|]; [|reflexivity].
     destruct (2 <? List.length fs)%nat; [reflexivity|].
     destruct (bshape (nd_shape (atleast_2d inc)) (nd_shape (atleast_2d out))) as [cs|]; [|reflexivity].
+    destruct (flag && (hd 1 cs =? 0)%nat); [reflexivity|].
     pose proof (valid_in tc k Hv Hin) as Hk. apply requested_in in Hin.
     unfold getitem, use_incident_L, use_incident_T.
     destruct (valid_key_cases k Hk) as [E|[E|[E|E]]]; subst k; cbn [lookup String.eqb Ascii.eqb Bool.eqb];
@@ -833,38 +918,28 @@ Section Objects.
   Variable K : T -> crack_kernels (T:=T).
 
   Lemma with_flag_snd : forall {R} (body : scat_obj T (@cx T) -> scat_err + R),
-    snd (with_matrix_flag N K body) = match fst (with_matrix_flag N K body) with inl _ => true | inr _ => false end.
-  Proof. reflexivity. Qed.
+    snd (with_matrix_flag N K body) = false /\
+    fst (with_matrix_flag N K body) = body (crack_obj_call N K true).
+  Proof. intros R0 body. split; reflexivity. Qed.
 
-  (* a matrix request that returns normally leaves the flag False whatever it was before; one that
-     raises leaves it True whatever it was before; a plain call does not touch it *)
+  (* a matrix request leaves the flag False whatever it was before and whether it returned or raised
+     (the finally clause of _scat_matrix_calculation); a plain call does not touch it *)
   Lemma crack_step_flag : forall flag op,
     snd (crack_step N K flag op)
     = match op with
       | OpCall _ _ _ _ => flag
-      | _ => negb (res_ok (fst (crack_step N K flag op)))
+      | _ => false
       end.
-  Proof.
-    intros flag [inc out f tc|f n tc|fs n tc]; cbn [crack_step]; [reflexivity| |].
-    - unfold crack_as_single, with_matrix_flag.
-      destruct (as_single_freq_matrices N (crack_obj_call N K true) f n tc); reflexivity.
-    - unfold crack_as_multi, with_matrix_flag.
-      destruct (as_multi_freq_matrices N (c0 N) (crack_obj_call N K true) fs n tc); reflexivity.
-  Qed.
+  Proof. intros flag [inc out f tc|f n tc|fs n tc]; reflexivity. Qed.
 
   (* the result of a matrix request does not depend on the flag found *)
   Lemma crack_step_matrix_any_flag : forall flag flag' op,
     match op with OpCall _ _ _ _ => True | _ => crack_step N K flag op = crack_step N K flag' op end.
   Proof. intros flag flag' [inc out f tc|f n tc|fs n tc]; [exact I | reflexivity | reflexivity]. Qed.
 
-  (* no matrix request of the history raised *)
-  Fixpoint clean_history (flag : bool) (ops : list (crack_op (T:=T))) : Prop :=
-    match ops with
-    | [] => True
-    | op :: rest =>
-        (match op with OpCall _ _ _ _ => True | _ => res_ok (fst (crack_step N K flag op)) = true end) /\
-        clean_history (snd (crack_step N K flag op)) rest
-    end.
+  (* an object whose flag is False keeps it False through every operation, failed or not *)
+  Lemma crack_step_false : forall op, snd (crack_step N K false op) = false.
+  Proof. intros op. rewrite crack_step_flag. destruct op; reflexivity. Qed.
 
   Lemma crack_run_cons : forall flag op rest,
     crack_run N K flag (op :: rest)
@@ -875,29 +950,93 @@ Section Objects.
     destruct (crack_run N K fl rest) as [rs fl']. reflexivity.
   Qed.
 
-  (* HISTORY INDEPENDENCE: after any history, from a fresh object, in which no matrix request raised,
-     the flag is False again; hence the next operation answers what it answers on a fresh object, and
-     every plain call of the history used the general kernel *)
-  Lemma crack_flag_restored : forall ops, clean_history false ops -> snd (crack_run N K false ops) = false.
+  (* HISTORY INDEPENDENCE, for ALL histories (plain calls that raise, matrix requests that raise,
+     anything): from a fresh object the flag is False after the history, hence the next operation
+     answers what it answers on a fresh object *)
+  Lemma crack_flag_restored : forall ops, snd (crack_run N K false ops) = false.
   Proof.
-    induction ops as [|op rest IH]; intros Hc; [reflexivity|].
-    rewrite crack_run_cons. cbn [snd]. destruct Hc as [Hop Hrest].
-    assert (Hf : snd (crack_step N K false op) = false).
-    { rewrite crack_step_flag. destruct op; [reflexivity| |]; rewrite Hop; reflexivity. }
-    rewrite Hf in Hrest |- *. apply IH. exact Hrest.
+    induction ops as [|op rest IH]; [reflexivity|].
+    rewrite crack_run_cons. cbn [snd]. rewrite crack_step_false. exact IH.
   Qed.
 
-  Lemma crack_history_independent : forall ops op, clean_history false ops ->
+  Lemma crack_history_independent : forall ops op,
     crack_step N K (snd (crack_run N K false ops)) op = crack_step N K crack_init_flag op.
-  Proof. intros ops op Hc. rewrite crack_flag_restored by exact Hc. reflexivity. Qed.
+  Proof. intros ops op. rewrite crack_flag_restored. reflexivity. Qed.
 
-  (* FINDING (real defect of the context manager, which has no try/finally): a matrix request that
-     raises — here for a key outside LL/LT/TL/TT — leaves the flag True, and the next plain call is
-     evaluated by the optimised driver *)
-  Lemma crack_flag_stuck : forall f n inc out g tc,
-    crack_run N K false [OpSingle f n ["XX"%string]; OpCall inc out g tc]
-    = ([RDict (inl EToCompute); RDict (crack_2d_scat_nd N (K g) inc out true tc)], true).
+  (* ... and every operation OF the history answered what it answers on a fresh object: the results
+     of a run are the results of the operations taken one by one on fresh objects; in particular every
+     plain call of every history is evaluated by the general driver *)
+  Lemma crack_run_pointwise : forall ops,
+    crack_run N K false ops = (map (fun op => fst (crack_step N K crack_init_flag op)) ops, false).
+  Proof.
+    induction ops as [|op rest IH]; [reflexivity|].
+    rewrite crack_run_cons, crack_step_false, IH. reflexivity.
+  Qed.
+
+  Lemma crack_call_fresh : forall inc out f tc,
+    fst (crack_step N K crack_init_flag (OpCall inc out f tc))
+    = RDict (crack_2d_scat_nd N (K f) inc out false tc).
   Proof. reflexivity. Qed.
+
+  (* whatever the flag found (also one set by hand), one matrix request — failed or not — resets it *)
+  Lemma crack_flag_reset_any : forall flag op ops,
+    match op with OpCall _ _ _ _ => True | _ => snd (crack_run N K flag (op :: ops)) = false end.
+  Proof.
+    intros flag op ops. destruct op as [inc out f tc|f n tc|fs n tc]; [exact I| |];
+      rewrite crack_run_cons; cbn [snd]; rewrite crack_step_flag; apply crack_flag_restored.
+  Qed.
+
+  (* the input on which the code before the repair /repo 3989d85 (no try/finally) answered differently:
+     a matrix request that raises — here for a key outside LL/LT/TL/TT — now leaves the flag False,
+     and the next plain call is evaluated by the general driver *)
+  Lemma crack_flag_reset : forall f n inc out g tc,
+    crack_run N K false [OpSingle f n ["XX"%string]; OpCall inc out g tc]
+    = ([RDict (inl EToCompute); RDict (crack_2d_scat_nd N (K g) inc out false tc)], false).
+  Proof. reflexivity. Qed.
+
+  (* ---- the outcome of a matrix request of the crack ---- *)
+  Lemma crack_single_outcome : forall flag f n tc,
+    match as_single_freq_matrices N (crack_obj_call N K flag) f n tc with
+    | inl EToCompute => valid_to_compute tc = false
+    | inl EEmptyModes => valid_to_compute tc = true /\ flag = true /\ n = 0%nat
+    | inl _ => False
+    | inr _ => valid_to_compute tc = true /\ (flag = true -> n <> 0%nat)
+    end.
+  Proof.
+    intros flag f n tc. unfold as_single_freq_matrices.
+    destruct (make_angles_grid N n) as [inc out] eqn:Eg. unfold crack_obj_call.
+    pose proof (crack_nd_outcome N (K f) inc out flag tc) as Ho.
+    assert (Hb : bshape (nd_shape inc) (nd_shape out) = Some [n; n]).
+    { replace inc with (fst (make_angles_grid N n)) by (rewrite Eg; reflexivity).
+      replace out with (snd (make_angles_grid N n)) by (rewrite Eg; reflexivity). apply grid_bshape. }
+    destruct (crack_2d_scat_nd N (K f) inc out flag tc) as [[]|D]; try exact Ho.
+    - destruct Ho as [_ Ho]. congruence.
+    - destruct Ho as (Hv & Hs & b & Hb'). rewrite Hb in Hb'. injection Hb' as -> _. auto.
+    - destruct Ho as (_ & fs & Hfs & Hl). rewrite Hb in Hfs. injection Hfs as <-. cbn [List.length] in Hl. lia.
+    - destruct Ho as (Hv & fs & Hfs & _ & Hne). split; [exact Hv|]. intros Hs ->.
+      rewrite Hb in Hfs. injection Hfs as <-. exact (Hne Hs 0%nat eq_refl).
+  Qed.
+
+  (* numangles = 0: the request itself raises IndexError (the grid has the shape (0, 0)), the flag is
+     reset all the same *)
+  Lemma crack_single_zero : forall f tc, valid_to_compute tc = true ->
+    crack_step N K false (OpSingle f 0 tc) = (RDict (inl EEmptyModes), false).
+  Proof.
+    intros f tc Hv. cbn [crack_step]. unfold crack_as_single, with_matrix_flag. f_equal. f_equal.
+    pose proof (crack_single_outcome true f 0 tc) as Ho.
+    destruct (as_single_freq_matrices N (crack_obj_call N K true) f 0 tc) as [[]|D]; try contradiction; try reflexivity.
+    - congruence.
+    - destruct Ho as [_ Ho]. exfalso. apply Ho; reflexivity.
+  Qed.
+
+  Lemma crack_multi_zero : forall f fs tc, valid_to_compute tc = true ->
+    crack_step N K false (OpMulti (f :: fs) 0 tc) = (RMulti (inl EEmptyModes), false).
+  Proof.
+    intros f fs tc Hv. pose proof (crack_single_zero f tc Hv) as H1. cbn [crack_step] in H1 |- *.
+    unfold crack_as_single, crack_as_multi, with_matrix_flag in *. injection H1 as H1.
+    unfold as_multi_freq_matrices. unfold as_single_freq_matrices in H1.
+    destruct (make_angles_grid N 0) as [inc out]. cbn [multi_loop]. rewrite H1. reflexivity.
+  Qed.
 End Objects.
 
 (* ------------------------------------------------------------------------------------ *)
@@ -1097,14 +1236,14 @@ Section MultiObjects.
     rewrite Hu. reflexivity.
   Qed.
 
-  (* a failed multi-frequency request leaves the flag True as well *)
-  Lemma crack_flag_stuck_multi : forall (K : T -> crack_kernels) f n,
-    crack_step N K false (OpMulti [f] n ["XX"%string]) = (RMulti (inl EToCompute), true).
+  (* a failed multi-frequency request leaves the flag False as well *)
+  Lemma crack_flag_reset_multi : forall (K : T -> crack_kernels) f n,
+    crack_step N K false (OpMulti [f] n ["XX"%string]) = (RMulti (inl EToCompute), false).
   Proof. reflexivity. Qed.
 End MultiObjects.
 
 (* ------------------------------------------------------------------------------------ *)
-(* 9. over the reals: the crack matrices, the stuck flag, the number of modal terms        *)
+(* 9. over the reals: the crack matrices, the flag is observable, the number of modal terms *)
 (* ------------------------------------------------------------------------------------ *)
 Section CrackReal.
   Variable P : R -> crack_params (T:=R).       (* the parameters of the kernel at each frequency *)
@@ -1148,12 +1287,16 @@ Section CrackReal.
   Qed.
 End CrackReal.
 
-(* the stuck flag changes answers: witness with a kernel that returns its two angles *)
-Lemma crack_stuck_flag_changes_answer :
+(* the flag is observable, and the witness of the repaired defect: a kernel that returns its two
+   angles, inc = [[0], [1]], out = [[0], [0]].  After the failed request OpSingle 1 4 ["XX"] the plain
+   call answers D' (general driver, what a fresh object answers); before the repair /repo 3989d85 the
+   flag stayed True and the call answered D (optimised driver), which differs at [1, 0] *)
+Lemma crack_failed_request_witness :
   exists (K : R -> crack_kernels (T:=R)) (inc out : nd R) (D D' : dict (nd Cx)) (A A' : nd Cx),
-    snd (crack_run NumR K false [OpSingle 1 4%nat ["XX"%string]]) = true /\
-    crack_obj_call NumR K true inc out 1 scat_keys = inr D /\         (* the call after the failed request *)
+    crack_run NumR K false [OpSingle 1 4%nat ["XX"%string]; OpCall inc out 1 scat_keys]
+      = ([RDict (inl EToCompute); RDict (inr D')], false) /\     (* the failed request, then the call *)
     crack_obj_call NumR K crack_init_flag inc out 1 scat_keys = inr D' /\   (* the same call on a fresh object *)
+    crack_obj_call NumR K true inc out 1 scat_keys = inr D /\         (* what an object with the flag True answers *)
     lookup "LL" D = Some A /\ lookup "LL" D' = Some A' /\ nd_at A [1; 0]%nat <> nd_at A' [1; 0]%nat.
 Proof.
   set (kk := fun a b : R => (a, b)).
@@ -1167,7 +1310,9 @@ Proof.
   cbn in Hb, Hb'. injection Hb as <-. injection Hb' as <-.
   destruct (Hall "LL"%string eq_refl) as (A & HA & _ & Hat).
   destruct (Hall' "LL"%string eq_refl) as (A' & HA' & _ & Hat').
-  exists K, inc, out, D, D', A, A'. split; [reflexivity|]. split; [exact E|]. split; [exact E'|].
+  exists K, inc, out, D, D', A, A'.
+  split; [rewrite (crack_flag_reset NumR K 1 4%nat inc out 1 scat_keys), E'; reflexivity|].
+  split; [exact E'|]. split; [exact E|].
   split; [exact HA|]. split; [exact HA'|].
   assert (Hin : in_shape [1; 0]%nat [2; 1]%nat) by (repeat constructor; lia).
   rewrite (Hat _ Hin), (Hat' _ Hin). cbn. intros Heq. injection Heq as Heq. lra.
